@@ -8,8 +8,8 @@ from gen import i1_line, e_scalar, e_single, e_array, e_ainto, e_into
 from vlib import lin_bracket
 
 ID = "C01"
-LEAN_MODULES = ["NdInterp.Props.C01", "NdInterp.Props.RatTie", "NdInterp.Props.FormulaTie.Lin", "NdInterp.Props.FormulaTie.Rng"]
-THEOREM_FILES = [("NdInterp/Props/C01.lean", "C01_"), ("NdInterp/Props/FormulaTie/Lin.lean", "FT_lin_"), ("NdInterp/Props/FormulaTie/Lin.lean", "FT_idx_"), ("NdInterp/Props/FormulaTie/Rng.lean", "FT_rng_")]
+LEAN_MODULES = ["NdInterp.Props.C01", "NdInterp.Props.RatTie", "NdInterp.Props.FormulaTie.Lin", "NdInterp.Props.FormulaTie.Rng", "NdInterp.Props.FormulaTie.Ctl"]
+THEOREM_FILES = [("NdInterp/Props/C01.lean", "C01_"), ("NdInterp/Props/FormulaTie/Lin.lean", "FT_lin_"), ("NdInterp/Props/FormulaTie/Lin.lean", "FT_idx_"), ("NdInterp/Props/FormulaTie/Rng.lean", "FT_rng_"), ("NdInterp/Props/FormulaTie/Ctl.lean", "FT_ctl_")]
 RULE = ("Linear (no extrapolation) at Q, exact: n=2..40, all axis kinds, 0..3 trailing axes, default vs explicit axis, "
         "static and dynamic dims, all layouts, every entry point; queries at knots, next to knots, ends, random. f64 runs "
         "judged against the exact rational interpolant of the float inputs with the proved bound (13u+12u^2)*max|y|. "
